@@ -75,6 +75,7 @@ def main():
     claimed = json.load(open(os.path.join(V, "tools", "claimed.json")))
     patches = []
     for p in a.patches:
+        p = os.path.abspath(p)
         patches.append(os.path.join(p, "patch.diff") if os.path.isdir(p) else p)
     bases = [setup(k) for k in range(a.workers)]
     free = list(bases)
